@@ -2,6 +2,7 @@ pub mod rng;
 pub mod report;
 pub mod hooks;
 pub mod world;
+pub mod worldjson;
 pub mod run;
 pub mod par;
 pub mod searchcase;
@@ -15,3 +16,9 @@ pub mod oracle {
     pub mod units;
 }
 pub mod mon;
+
+/// root of the verification tree (for directed cases); set once by main
+pub static ROOT: std::sync::OnceLock<String> = std::sync::OnceLock::new();
+pub fn root() -> String {
+    ROOT.get().cloned().unwrap_or_else(|| "/verif".to_string())
+}
